@@ -40,8 +40,7 @@ Proof. exact run_scn_local. Qed.
 Print Assumptions outcome_depends_only_on_consulted_faults.
 
 (* Every transcribed instance of the code as it is (ids outside 100..199) is accepted by the
-   checker, except the recorded known findings (void muggle_socket_evloop_add_ctx;
-   muggle_log_complicated_init dropping the handler's failure). *)
+   checker, except the recorded known finding (void muggle_socket_evloop_add_ctx). *)
 Theorem all_instances_wf : forall id sc,
   inst_by_id id = Some sc -> orig_id id = false -> in_known_class id = false -> wf_scn sc = true.
 Proof. exact instances_wf. Qed.
@@ -85,15 +84,6 @@ Theorem void_socket_evloop_add_ctx_refuted :
                   ~ holds sc (single k).
 Proof. exact void_add_ctx_refuted. Qed.
 Print Assumptions void_socket_evloop_add_ctx_refuted.
-
-(* P_refuted of the second known finding: the fopen inside muggle_log_file_time_rot_handler_init
-   fails and muggle_log_complicated_init still answers 0. *)
-Theorem log_complicated_init_refuted :
-  exists id sc k, in_known_class_complicated_init id = true /\ inst_by_id id = Some sc /\
-                  ~ holds sc (single k) /\ o_rc (run_scn sc (single k)) = Ok /\
-                  hit (single k) (o_att (run_scn sc (single k))) = true.
-Proof. exact complicated_init_refuted. Qed.
-Print Assumptions log_complicated_init_refuted.
 
 (* Every transcription of the UNCHANGED defective code (ids 100..199) violates the
    property at a concrete single-fault position. *)
